@@ -102,11 +102,14 @@ ARENA = "ontology::termarena::Arena"
 
 
 
-def reaches_membership_test(prog, body):
+def reaches_membership_test(prog, body, private_only=False):
     """some function reachable from `body` (crate calls, closures, and the trait impls of crate types that are constructed on the way, e.g. the
     `Iterator::next` of a private iterator struct) tests an id for membership in a group (`HpoGroup::contains` / `binary_search`) - the sign that a
     membership predicate exists, in an idiom the membership rules do not read"""
-    seen = set(prog.reachable_bodies([body.id]))
+    # the test must sit in PRIVATE code below `body`: a public sibling (`is_modifier` answering through `categories()`) has a meaning of its own,
+    # its membership test is not this predicate's
+    stop = {b.id for b in prog.production() if b.kind in ("Fn", "AssocFn") and (b.exported or b.reachable) and not b.impl_trait and b.id != body.id} if private_only else set()
+    seen = set(prog.reachable_bodies([body.id], stop=stop)) - (stop - {body.id})
     work = list(seen)
     while work:
         x = prog.bodies.get(work.pop())
@@ -119,7 +122,7 @@ def reaches_membership_test(prog, body):
                 if adt:
                     for y in prog.production():
                         if y.kind == "AssocFn" and y.impl_trait and (y.impl_self or {}).get("adt") == adt and y.id not in seen:
-                            new = prog.reachable_bodies([y.id]) - seen
+                            new = (prog.reachable_bodies([y.id], stop=stop) - (stop - {y.id})) - seen
                             seen |= new | {y.id}
                             work.extend(new | {y.id})
     for bid in seen:
